@@ -308,7 +308,10 @@ static int print_f(void (*printchar_handler)(void *d, int c),
             with_exp = 1;
     }
     fp = with_exp ? fp : MODF(r, &ip);
-    precision -= (int)(is_shortened ? ceill(LOG10(ip)) + (ip != 0.0L) : 0);
+    /* %g: P significant digits, i.e. P - 1 fraction digits in exponent style
+     * and P - 1 - X in fixed style (X = decimal exponent, -4 <= X < P) */
+    if (is_shortened)
+        precision -= with_exp ? 1 : 1 + (int)ep;
     for (; (sign_count < precision) && (sign_count < PRINT_F_FRAC_MAX) &&
            (FMOD(fp, 1.0L) != 0.0L);
          ++sign_count)
